@@ -2,7 +2,7 @@
 from vf import gen, corecheck as cc, framework as fw, model_fd
 
 RULE = ("[M_SRC_DUP registrations are tracked too: auto-close is about the user's descriptor, the duplicate is the library's] "
-        "sources, hostile-lifetime, registry, mixed, tick_in_flush and loop_start_callbacks (tick configured by a callback the loop start runs) profiles with every mix of auto-close / duplicate / one-shot flags, modules "
+        "sources, hostile-lifetime, registry, mixed, tick_in_flush, loop_start_callbacks (tick configured by a callback the loop start runs) and path_gone (path sources whose directory was removed before they are (re-)added to the poll set) profiles with every mix of auto-close / duplicate / one-shot flags, modules "
         "leaving by stop, poison pill, refused start, self-deregistration and context teardown, one-shot events retained past their "
         "source, rejected registrations carrying auto-close. close(), pipe(), dup(), epoll_create1(), timerfd_create(), signalfd(), "
         "inotify_init1(), eventfd() and syscall(pidfd_open) are wrapped at link time for the library objects: every library close "
@@ -44,6 +44,11 @@ def run(tier):
     for k in range(max(16, n // 50)):
         c = cc.Case()
         c.sc, c.profile, c.mode, c.seed = gen.gen_loop_start_callbacks(seed * 100 + k), "loop_start_callbacks", ("loop" if k % 2 else "dispatch"), seed * 100 + k
+        cases.append(c)
+
+    for k in range(max(16, n // 50)):
+        c = cc.Case()
+        c.sc, c.profile, c.mode, c.seed = gen.gen_path_gone(seed * 100 + k), "path_gone", ("loop" if k % 2 else "dispatch"), seed * 100 + k
         cases.append(c)
 
     def oracle(case):
